@@ -44,7 +44,8 @@ SIG_UNSTORED = "history/unstored-parameter-of-component-subclass-KeyError"
 SIG_LOCLOC = "history/by-location-of-location-ValueError"
 SIG_SPLIT_ATTR = "split/group-attribute-cycle-not-renumbered"
 # shapes of candidate armi defects: avoided by construction in the search (counted as excluded:<sig>), exercised by part known_shapes
-EXCLUDE_KNOWN = {SIG_UNSTORED: True, SIG_LOCLOC: True, SIG_SPLIT_ATTR: True}
+# all three were repaired in /repo (fix: commits bb6b5f5, 8cac548, 9c3bcc9): the shapes are searched again
+EXCLUDE_KNOWN = {SIG_UNSTORED: False, SIG_LOCLOC: False, SIG_SPLIT_ATTR: False}
 
 LABELS = [None, "EOL", "error", "BOL", "-special"]
 
@@ -121,7 +122,7 @@ def _decode(op, position=0):
     full["pmask"] = 1 + nxt(2**10 - 1)
     full["rot"] = 1 + nxt(5)
     full["other"] = ["temp", "ndens", "discharge", "rotate"][nxt(4)]
-    full["label"] = [0, 0, 0, 0, 1, 2, 3, 4][nxt(8)]
+    full["label"] = [0, 0, 0, 0, 0, 0, 0, 0, 1, 2, 3, 4][nxt(12)]
     full["hkind"] = nxt(6)
     full["loc"] = bool(nxt(2))
     full["flag"] = bool(nxt(2))
@@ -620,7 +621,8 @@ def _op_reopen(S, out, op):
 
     was_w = S.db._permission == "w"
     S.db.close(op["flag"])
-    out.check(os.path.exists(S.fn), "reopen/file-not-in-working-directory", "closed database file is not in the working directory")
+    if not out.check(os.path.exists(S.fn), "reopen/file-not-in-working-directory", "closed database file is not in the working directory"):
+        return  # (the program ends here: the interpreter stops at the first violation)
     if was_w:
         with h5py.File(S.fn, "r") as f:
             got = bool(f.attrs["successfulCompletion"])
@@ -786,6 +788,28 @@ def _resolve_kind(case, op):
     return weighted[op["k"] % len(weighted)]
 
 
+def plan(case):
+    """[(kind, decoded op)] for the whole program.  Three programs in four start like a run: the first 3 or 5 operations are
+    write (c0,n0), change, write (c0,n1)[, change, write (c1,n0)] so that the generated tail (loads, histories, merge, split,
+    re-writes, more writes) works on several snapshots; the changes and all payloads are still the generated ones."""
+    prog = case["program"]
+    warm = 0
+    if prog:
+        warm = [0, 3, 5, 5][_decode(prog[0], len(prog))["k"] % 4]
+    res = []
+    for position, raw in enumerate(prog):
+        op = _decode(raw, position)
+        kind = _resolve_kind(case, op)
+        if position < warm:
+            if position % 2 == 0:
+                kind = "write"
+                op.update(stay=False, label=0, tcycle=(position // 2) // 2, tnode=(position // 2) % 2)
+            else:
+                kind = "swap" if op["flag"] else "mutate"
+        res.append((kind, op))
+    return res
+
+
 def hist_execute(case):
     import collections
 
@@ -811,9 +835,7 @@ def hist_execute(case):
     S.moved = set()
     out.label("geom:" + spec["geom"], "sym:" + spec["symmetry"].split()[0], "assemblies:%d" % len(S.r.core))
     try:
-        for step, op in enumerate(case["program"]):
-            op = _decode(op, step)
-            kind = _resolve_kind(case, op)
+        for step, (kind, op) in enumerate(plan(case)):
             if kind == "mutate" or kind == "unset":
                 level = op["level"]
                 objs = _objects(S.r, level)
@@ -882,6 +904,8 @@ def hist_execute(case):
                 _op_merge(S, out, op)
             elif kind == "split":
                 _op_split(S, out, op)
+            if out.violations:
+                break
             # invariant after every step: exactly the written snapshots are listed, in order
             _check_listing(S, out, "after step %d (%s)" % (step, kind))
             if out.violations:
